@@ -16,6 +16,7 @@ GHOST_ARR(unsigned long, PD, 10)   /* PD[j] = product of (size_t)dst[t], t<j, ds
 GHOST_ARR(int, CN, 10)             /* CN[j] = #{t<j : dst[t]==-1}                                                            */
 GHOST_ARR(int, NB, 10)             /* NB[j] = 1 iff no dst[t], t<j, is < -1 (used by the loop contract of the repaired shape_reshape) */
 GHOST_ARR(unsigned long, SQ, 10)   /* SQ[j] = #{t<j : shape[t] != 1}  (squeeze: output position of the entries that are kept)                */
+GHOST_ARR(int, FX, 40)             /* FX[k*10+j] = 1 iff some axes[t], t<j, equals k literally (flip_slices: what index::count sees)           */
 GHOST_ARR(int, VT, 10)             /* VT[j] = 1 iff every axes[t], t<j, lies in [-ndim, ndim)                                */
 
 #define C03_INT_MAX 2147483647L
@@ -360,6 +361,49 @@ static inline int post_verif_moveaxis_to_transpose(sv_t shape, int source, int d
       && IMPLIES(ok, SV_LEN(OPT_VAL(ret)) == n
                   && IMPLIES(g < n, SV_AT(OPT_VAL(ret), g) == MOVEAXIS_AT(g, NORM(source, n), NORM(destination, n)) && SV_AT(OPT_VAL(ret), g) < n));
 }
+/* ------------------------------------------------------------------ flip (rank 3): slice step -1 exactly on the normalised axes */
+#define FLIP_STEP(ret, k) TUP_GET(ARR_AT(ret, k), 2)
+static inline int pre_verif_flip_slices3(int axis) { return AXIS_OK(axis, 3UL); }
+static inline int post_verif_flip_slices3(int axis, slices3_t ret)
+{ return IMPLIES(g < 3UL, FLIP_STEP(ret, g) == (g == NORM(axis, 3UL) ? -1 : 1)); }
+static inline int pre_verif_flip_slices3_none(void) { return 1; }
+static inline int post_verif_flip_slices3_none(slices3_t ret)
+{ return IMPLIES(g < 3UL, FLIP_STEP(ret, g) == -1); }
+static inline int trace_FX(svi_t axes)
+{
+  int ok = 1;
+  for (unsigned long k = 0; k < 3UL; k++) {
+    ok = ok && GHOST_DEF(FX[k * 10UL], 0);
+    for (unsigned long t = 0; t < CAP; t++)
+      ok = ok && GHOST_DEF(FX[k * 10UL + t + 1UL], (FX[k * 10UL + t] || (t < SV_LEN(axes) && SV_AT(axes, t) == (int)k)) ? 1 : 0);
+  }
+  return ok;
+}
+static inline int spec_axis_listed(svi_t axes, unsigned long n, unsigned long k)   /* k in {axes[t] mod n} */
+{
+  int r = 0;
+  for (unsigned long t = 0; t < CAP; t++)
+    if (t < SV_LEN(axes) && NORM(SV_AT(axes, t), n) == k) r = 1;
+  return r;
+}
+/* some negative entry of axes names an axis that no non-negative entry names: flip_slices does not flip that axis */
+static inline int flip_negative_axis_ignored(svi_t axes, unsigned long n)
+{
+  int r = 0;
+  for (unsigned long t = 0; t < CAP; t++)
+    if (t < SV_LEN(axes) && SV_AT(axes, t) < 0) {
+      int named = 0;
+      for (unsigned long u = 0; u < CAP; u++)
+        if (u < SV_LEN(axes) && SV_AT(axes, u) >= 0 && (unsigned long)SV_AT(axes, u) == NORM(SV_AT(axes, t), n)) named = 1;
+      if (!named) r = 1;
+    }
+  return r;
+}
+static inline int pre_verif_flip_slices3_axes(svi_t axes)
+{ return SV_LEN(axes) <= CAP && axes_in_range(axes, 3UL) && trace_FX(axes); }
+static inline int post_verif_flip_slices3_axes(svi_t axes, slices3_t ret)
+{ return IMPLIES(g < 3UL, FLIP_STEP(ret, g) == (spec_axis_listed(axes, 3UL, g) ? -1 : 1)); }
+
 /* guarded ghost positions for loop-entry snapshots */
 #define GI(k) ((k) < CAP ? (k) : 0UL)
 #define GIM1(k) (((k) >= 1UL && (k) <= CAP) ? (k) - 1UL : 0UL)
